@@ -210,6 +210,60 @@ def _task(args):
     return st, list(viols.values()), samples
 
 
+def random_stage_laws(tier):
+    """Laws at states that contain a seeded per-epoch reshuffle / local shuffle: both sides are built from
+    equally seeded fresh pipelines and compared epoch by epoch (a reshuffling dataset is not repeatable, so the
+    E1 states above cannot contain one)."""
+    import lazy_dataset
+    f, g = fns.add10, fns.mul3
+    viols, count = [], 0
+
+    def base(kind, seed, n, mid):
+        ds = lazy_dataset.new({f'k{i}': i for i in range(n)})
+        rng = np.random.RandomState(seed)
+        ds = ds.shuffle(True, rng=rng) if kind == 'reshuffle' else ds.shuffle(True, rng=rng, buffer_size=2)
+        if mid == 'map':
+            ds = ds.map(g)
+        elif mid == 'batch':
+            ds = ds.batch(2)
+        elif mid == 'filter':
+            ds = ds.filter(fns.is_small)
+        return ds
+
+    laws_r = {
+        'tile-is-concatenate-2': (lambda d: d.tile(2), lambda d: lazy_dataset.concatenate(d, d)),
+        'tile-is-concatenate-3': (lambda d: d.tile(3), lambda d: lazy_dataset.concatenate(d, d, d)),
+        'batch-unbatch-identity': (lambda d: d.batch(2).unbatch(), lambda d: d),
+        'map-map-composition': (lambda d: d.map(f).map(g), lambda d: d.map(compose(g, f))),
+        'map-over-batch': (lambda d: d.batch(2).map(batch_fn(f)), lambda d: d.map(f).batch(2)),
+        'map-over-concatenate': (lambda d: d.concatenate(d).map(f), lambda d: d.map(f).concatenate(d.map(f))),
+        'catch-is-identity': (lambda d: d.catch(), lambda d: d),
+        'copy-is-identity': (lambda d: d.copy(), lambda d: d),
+    }
+    for kind in ('reshuffle', 'local'):
+        for n in (0, 1, 3, 4):
+            for mid in (None, 'map', 'batch', 'filter'):
+                for seed in range(3 if tier == 'quick' else 10):
+                    for name, (lhs, rhs) in laws_r.items():
+                        if name == 'catch-is-identity' and (kind == 'local' or mid in ('batch', 'filter')):
+                            continue
+                        if mid == 'batch' and name in ('map-map-composition', 'map-over-batch', 'map-over-concatenate'):
+                            continue
+                        count += 1
+                        try:
+                            a, b = lhs(base(kind, seed, n, mid)), rhs(base(kind, seed, n, mid))
+                            ea = [O.run_iter(lambda: iter(a), 4 * n + 4) for _ in range(3)]
+                            eb = [O.run_iter(lambda: iter(b), 4 * n + 4) for _ in range(3)]
+                        except BaseException as e:      # noqa: BLE001
+                            continue
+                        if ea != eb:
+                            viols.append(common.Violation(
+                                'C16', f'law/{name}/over-{kind}',
+                                f'{kind}(seed={seed}) n={n} then {mid}: epochs of both sides differ: {ea} vs {eb}',
+                                {'engine': 'random-laws', 'kind': kind, 'n': n}))
+    return count, viols
+
+
 def run(tier):
     res = common.Result()
     if tier == 'quick':
@@ -224,7 +278,15 @@ def run(tier):
             total.update(st)
             samples += smp
             res.violations.extend(common.Violation.from_json(v) for v in viols)
-    res.violations.sort(key=lambda v: (len(v.replay['program']['ops']), v.key))
+    cnt, v = random_stage_laws(tier)
+    total['law_instances'] += cnt
+    total['transitions'] += cnt
+    seen = set()
+    for x in v:
+        if x.key not in seen:
+            seen.add(x.key)
+            res.violations.append(x)
+    res.violations.sort(key=lambda v: (len(v.replay.get('program', {}).get('ops', [])), v.key))
     res.coverage.update(
         states=total['states'], transitions=total['transitions'], traces_validated_against_impl=total['law_instances'],
         law_instances=total['law_instances'], exhaustive=True, samples=common.sample(samples, 3),
@@ -241,6 +303,11 @@ def run(tier):
 def replay(data):
     r = data['replay']
     res = common.Result()
+    if r.get('engine') == 'random-laws':
+        cnt, v = random_stage_laws('quick')
+        res.violations = v[:1]
+        res.coverage.update(states=1, transitions=cnt)
+        return res
     program = r['program']
     ref = R.source(program['source'])
     ds = B.source(program['source'])
